@@ -181,23 +181,38 @@ inline void no_aslr(char** argv) {
 // ------------------------------------------------------------------ caching allocator for mju_malloc
 // Blocks are never returned to the C library: large mmap/munmap (and, under TSan, the shadow reset that
 // goes with them) per mj_makeData/mj_deleteData made 16 concurrent driver processes ~18x slower.
+// The allocator stands for the C library's (internally locked) malloc: no scheduling point inside it, its own
+// bookkeeping is invisible to TSan, and a recycled block carries a release->acquire edge from free to the next
+// malloc, as the real allocator's lock would give.
+#ifdef VSIM_TSAN
+extern "C" void __tsan_acquire(void*);
+extern "C" void __tsan_release(void*);
+#define SD_TSAN_ACQ(p) __tsan_acquire(p)
+#define SD_TSAN_REL(p) __tsan_release(p)
+#else
+#define SD_TSAN_ACQ(p) ((void)0)
+#define SD_TSAN_REL(p) ((void)0)
+#endif
 struct CacheAlloc {
   struct Hdr { size_t sz; Hdr* next; char pad[48]; };
   static_assert(sizeof(Hdr) == 64);
   static inline Hdr* bins[64];
-  static int bin(size_t n) { int b = 0; size_t c = 64; while (c < n) { c <<= 1; b++; } return b; }
-  static void* alloc(size_t n) {
+  static inline bool poison_on_free = false;
+  __attribute__((no_sanitize("thread"), no_sanitize("coverage"))) static int bin(size_t n) { int b = 0; size_t c = 64; while (c < n) { c <<= 1; b++; } return b; }
+  __attribute__((no_sanitize("thread"), no_sanitize("coverage"), noinline)) static void* alloc(size_t n) {
     int b = bin(n ? n : 1);
     Hdr* h = bins[b];
-    if (h) bins[b] = h->next;
+    if (h) { bins[b] = h->next; SD_TSAN_ACQ(&bins[b]); }
     else { h = (Hdr*)aligned_alloc(64, sizeof(Hdr) + ((size_t)64 << b)); if (!h) return nullptr; }
     h->sz = n; h->next = nullptr;
     return (char*)h + sizeof(Hdr);
   }
-  static void release(void* p) {
+  __attribute__((no_sanitize("thread"), no_sanitize("coverage"), noinline)) static void release(void* p) {
     if (!p) return;
     Hdr* h = (Hdr*)((char*)p - sizeof(Hdr));
     int b = bin(h->sz ? h->sz : 1);
+    if (poison_on_free) { size_t n = h->sz < 65536 ? h->sz : 65536; unsigned char* c = (unsigned char*)p; for (size_t i = 0; i < n; i++) c[i] = 0xFF; }   // use-after-free becomes visible garbage (NaN / -1)
+    SD_TSAN_REL(&bins[b]);
     h->next = bins[b]; bins[b] = h;
   }
 };
